@@ -22,7 +22,7 @@ from fractions import Fraction
 import numpy as np
 
 PROP = 'C06'
-TARGETS = []
+TARGETS = ['T6a', 'T6b', 'T6c', 'T6d', 'T6e', 'T6f']
 LEAN_MODULES = ['HdVerif.Props.C06']
 MODEL_MODULES = ['HdVerif.Model.PixelPipeline']
 NAMESPACE = 'HdVerif.C06'
@@ -773,6 +773,13 @@ def stream_pipeline(ctx, reqs, pending):
                 case = {'stream': 'pipe', 'idx': idx, 'rep': rep, 'frame': f, 'flags': flags, 'opts': opts, 'P': P}
                 res = call(im.get_frame, f + 1, **kw)
                 ref = check_call(ctx, case, P, f, flags, opts, res, 'get_frame')
+                mp = model_params(P, f, opts) if ref[0] in ('ok', 'err') and ref[1] != 'selector' else None
+                if mp is not None and 'constant' not in str(ref[1]):
+                    reqs.append(('pipeline', {'flags': [flags[k] for k in ('rw', 'mod', 'voi', 'pal', 'icc')], 'pres': flags['pres'],
+                                              'ctype': MONO, 'present': [mp[1][k] for k in PRES_KEYS], 'params': mp[0],
+                                              'xs': [int(x) for x in np.asarray(P['frames'][f]).reshape(-1)]}))
+                    pending.append(('pipeline', {k: v for k, v in case.items() if k != 'P'} | {'T': P['T']}, res, ref,
+                                    opts.get('dtype', 'float64')))
                 kinds = '+'.join(ref[2]['kind']) if ref[0] == 'ok' else ref[0] + ':' + str(ref[1])[:30]
                 places = ','.join(f"{k}:{'/'.join(e['place'] for e in P['T'][k])}" for k in ('rescale', 'window', 'rwvm') if P['T'].get(k))
                 ctx.case(sample=case if (ref[0] == 'ok' and ctx.evaluations % 211 == 0) else None,
@@ -795,10 +802,29 @@ def stream_pipeline(ctx, reqs, pending):
                 ctx.fail(case, {'why': 'get_frames succeeded although a single get_frame is refused'}, site='get_frames')
 
 
+def settle(ctx, reqs, pending):
+    answers = ctx.model(reqs)
+    if answers is None:
+        return
+    for item, ans in zip(pending, answers):
+        if item[0] == 'pipeline':
+            _, case, res, ref, dtype = item
+            compare_model(ctx, case, ans, res, ref, ref[0] == 'ok' and ref[2]['exact'], dtype)
+        else:
+            case, impl = item
+            if 'proto_err' in ans:
+                ctx.disagree('L0', case, impl, ans, 'model protocol error')
+                continue
+            model = 'err' if 'err' in ans else ans['ok']
+            if model != impl:
+                ctx.disagree(case.get('layer', 'L0') if isinstance(case, dict) else 'L0', case, impl, model, case.get('what', 'value'))
+
+
 def run(ctx):
     reqs, pending = [], []
     stream_flags(ctx, reqs, pending)
     stream_pipeline(ctx, reqs, pending)
+    settle(ctx, reqs, pending)
 
 
 def replay(ctx, case):
@@ -919,3 +945,123 @@ def stream_flags(ctx, reqs, pending):
             pending.append((case, obs if obs == 'err' else [obs[k] for k in ('rwvm', 'modality', 'voi', 'invert', 'palette', 'icc')]))
     if full:
         ctx.exhaustive.append(f'flag table: {len(rows)} (colour type x presence) rows x {len(tuples)} flag tuples = {len(rows) * len(tuples)} cells via get_frame')
+
+
+# ============================================================================ model requests
+def model_params(P, f, opts):
+    """the parameters in force for frame f as the model's `Params` (selection and discovery by the oracle's
+    own functions; the model's selectors / placement search are compared separately).  None if the case lies
+    outside the model (colour types; selector refusals; constant / user-defined corner cases)."""
+    T = P.get('T') or {}
+    if color_type(P['photometric']) != MONO:
+        return None
+    imin, imax = stored_range(P)
+    lo, hi = opts.get('voi_output_range', (0, 1))
+    out = {'imin': imin, 'imax': imax, 'lo': fs(F(lo)), 'hi': fs(F(hi)), 'modality': None, 'voi': None, 'rwvm': None}
+    present = {'rwvm': False, 'modality': False, 'voi': False}
+    maps = discover(T, 'rwvm', f)
+    if maps is not None:
+        m = select_rwvm(maps, opts.get('rwvm_selector', 0))
+        if m is None:
+            return None
+        present['rwvm'] = True
+        if 'lut' in m:
+            out['rwvm'] = {'k': 'lut', 'first': int(m['first']), 'data': [fs(F(v)) for v in m['lut']]}
+        else:
+            out['rwvm'] = {'k': 'linear', 'first': fs(F(m['first'])), 'last': fs(F(m['last'])), 'm': fs(F(m['slope'])), 'b': fs(F(m['intercept']))}
+    if T.get('mod_lut'):
+        present['modality'] = True
+        out['modality'] = {'k': 'lut', 'first': T['mod_lut']['first'], 'data': T['mod_lut']['data']}
+    else:
+        resc = discover(T, 'rescale', f)
+        if resc is not None:
+            present['modality'] = True
+            out['modality'] = {'k': 'rescale', 'm': fs(F(resc[0])) if resc[0] is not None else '1',
+                               'b': fs(F(resc[1])) if resc[1] is not None else '0'}
+    u = opts.get('voi_user')
+    sel = opts.get('voi_selector', 0)
+    if u is not None:
+        present['voi'] = True
+        out['voi'] = {'k': 'lut', 'first': u['first'], 'data': u['data']} if u['kind'] == 'lut' else \
+            {'k': 'window', 'fn': u.get('fn') or 'LINEAR', 'c': fs(F(u['c'])), 'w': fs(F(u['w']))}
+    elif T.get('voi_luts'):
+        v = select_lut(T['voi_luts'], sel)
+        if v is None:
+            return None
+        present['voi'] = True
+        out['voi'] = {'k': 'lut', 'first': v['first'], 'data': v['data']}
+    else:
+        win = discover(T, 'window', f)
+        if win is not None:
+            cw = select_window(win, sel)
+            if cw is None:
+                return None
+            present['voi'] = True
+            out['voi'] = {'k': 'window', 'fn': win.get('fn') or 'LINEAR', 'c': fs(cw[0]), 'w': fs(cw[1])}
+    present['icc'] = bool(T.get('icc'))
+    present['inverse'] = (T.get('pres_shape') == 'INVERSE') or (not T.get('pres_shape') and P['photometric'] == 'MONOCHROME1')
+    return out, present
+
+
+def out_value(o):
+    """a model `Out` as a number: exact Fraction, or float for a sigmoid"""
+    if 'v' in o:
+        return F(o['v'])
+    k, off, arg = (float(F(x)) for x in o['s'])
+    try:
+        e = math.exp(arg)
+    except OverflowError:
+        e = math.inf
+    return off + k / (1.0 + e)
+
+
+def compare_model(ctx, case, ans, res, ref, info_exact, dtype):
+    """model (`pipeline` answer) against implementation result `res` and against the oracle's reference `ref`"""
+    if 'proto_err' in ans:
+        ctx.disagree('L0', case, res[:2], ans, 'model protocol error')
+        return
+    impl_ok = res[0] == 'ok'
+    if 'err' in ans:                       # the model refuses at the flag stage
+        if impl_ok:
+            ctx.disagree('L0', case, 'ok', ans, 'flags: model refuses, implementation returns a frame')
+        return
+    body = ans['ok']
+    folded, mref = body['folded'], body['ref']
+    # (1) Lean reference pipeline = oracle's reference pipeline
+    if ref[0] == 'ok':
+        want = ref[1]
+        for o, w in zip(mref, want):
+            if 'err' in o:
+                ctx.disagree('L0', case, str(w), o, 'Lean reference pipeline refuses where the oracle has a value')
+                break
+            v = out_value(o['ok'])
+            same = (v == w) if isinstance(w, Fraction) and isinstance(v, Fraction) else abs(float(v) - float(w)) <= 1e-9 * (1 + abs(float(w)))
+            if not same:
+                ctx.disagree('L0', case, str(w), o, 'Lean reference pipeline differs from the oracle')
+                break
+    # (2) folded model = implementation
+    if any('err' in o for o in folded):
+        if impl_ok:
+            ctx.disagree('L0', case, 'ok', [o for o in folded if 'err' in o][:1], 'model refuses, implementation returns a frame')
+        return
+    if not impl_ok:
+        # refusals because of the output dtype are outside the model
+        if np.dtype(dtype).kind == 'f' and np.dtype(dtype).itemsize == 8:
+            ctx.disagree('L0', case, res[:3], 'ok', 'implementation refuses, model returns values')
+        return
+    got = np.asarray(res[1]).reshape(-1).tolist()
+    exact = info_exact and np.dtype(dtype) == np.float64
+    for g, o in zip(got, folded):
+        v = out_value(o['ok'])
+        if np.dtype(dtype).kind in 'iu':
+            same = isinstance(v, Fraction) and v == int(g)
+        elif exact and isinstance(v, Fraction):
+            same = not (math.isnan(g) or math.isinf(g)) and Fraction(g) == v
+        else:
+            tol = 2.0 ** -40 if np.dtype(dtype).itemsize >= 8 else 2.0 ** -18
+            if not isinstance(v, Fraction):
+                tol = max(tol, 1e-12)
+            same = abs(g - float(v)) <= tol * (1 + abs(float(v)))
+        if not same:
+            ctx.disagree('L0', case, got, [str(out_value(o['ok'])) for o in folded], 'folded model differs from the implementation')
+            return
